@@ -34,6 +34,15 @@ type pathCfg struct {
 	// withEval (optional) is handed, just before the visitor runs for a path, an evaluator of
 	// boolean values of the enumerated function as they stand at the end of that path
 	withEval func(eval func(v ssa.Value) (val, known bool))
+	// withResolve (optional) is handed a function that follows a value of the enumerated function,
+	// as it stands at the end of the current path, through the φ-nodes the path decided and the
+	// results of inlined helpers down to the value it was computed from
+	withResolve func(resolve func(v ssa.Value) ssa.Value)
+	// inlineAll: calls to any library function that carries an event are inlined, not only helpers
+	inlineAll bool
+	// starLoops: an event met again on the second pass through a loop ends that path quietly (the
+	// first pass stands for the iterations) instead of making the result unknown
+	starLoops bool
 }
 
 type pathFrame struct {
@@ -244,6 +253,9 @@ func evalPathsDeep(fn *ssa.Function, cfg pathCfg, visit func(assign map[string]b
 				ins := b.Instrs[i]
 				if nm := cfg.classify(ins); nm != "" {
 					if fr.on[b] >= 2 {
+						if cfg.starLoops {
+							return true
+						}
 						why = "an event lies inside a loop"
 						return false
 					}
@@ -251,7 +263,7 @@ func evalPathsDeep(fn *ssa.Function, cfg pathCfg, visit func(assign map[string]b
 					continue
 				}
 				if cc, isDefer, isGo := callCommon(ins); cc != nil && !isGo && !isDefer && depth < 3 {
-					if sc := cc.StaticCallee(); sc != nil && isHelper(sc) {
+					if sc := cc.StaticCallee(); sc != nil && (isHelper(sc) || (cfg.inlineAll && curProg != nil && curProg.InLib(sc) && originOf(sc).Blocks != nil && sc.Parent() == nil)) {
 						o := originOf(sc)
 						has := false
 						deepVisit(o, func(inner, _ ssa.Instruction) {
@@ -295,6 +307,18 @@ func evalPathsDeep(fn *ssa.Function, cfg pathCfg, visit func(assign map[string]b
 				case *ssa.Panic:
 					return true
 				case *ssa.If:
+					if fr.on[b] >= 2 {
+						// the second evaluation of a loop condition is a new value: what was decided
+						// for the first does not bind it
+						if base, _ := atomOf(x.Cond, fr); base != nil {
+							if old, had := decided[base]; had {
+								delete(decided, base)
+								okB := enter(b.Succs[0], fr, depth, ev, k) && enter(b.Succs[1], fr, depth, ev, k)
+								decided[base] = old
+								return okB
+							}
+						}
+					}
 					if v, known := evalV(x.Cond, fr, 0); known {
 						if v {
 							return enter(b.Succs[0], fr, depth, ev, k)
@@ -324,6 +348,18 @@ func evalPathsDeep(fn *ssa.Function, cfg pathCfg, visit func(assign map[string]b
 		if !enter(fn.Blocks[0], top, 0, nil, func(ev []pathEvent, ret *ssa.Return) bool {
 			if cfg.withEval != nil {
 				cfg.withEval(func(v ssa.Value) (bool, bool) { return evalV(v, top, 0) })
+			}
+			if cfg.withResolve != nil {
+				cfg.withResolve(func(v ssa.Value) ssa.Value {
+					for i := 0; i < 6; i++ {
+						b, _ := atomOf(v, top)
+						if b == v {
+							break
+						}
+						v = b
+					}
+					return v
+				})
 			}
 			return visit(assign, ev, ret)
 		}) {
